@@ -43,6 +43,7 @@ def run_jobs(jobs, timeout=3600):
                 if os.path.exists(fo):
                     try:
                         results[i] = json.load(open(fo))
+                        results[i]['wall_s'] = round(time.time() - ts, 1)
                     except Exception as e:
                         results[i] = {'status': 'crash', 'error': f'unreadable result: {e}'}
                 else:
